@@ -206,6 +206,30 @@ let handle (fields : string list) : string * string =
         if Model.c06_oracle bodies (List.concat writes) at_host at_client then "ok" else "fail:relay-not-exact"
       | _ -> "fail:bad-observation" in
     (m, verdict)
+  | "policy" :: tok :: verify :: mode :: hosts :: tokhost :: tokip :: user :: cip :: live :: items :: impl :: [] ->
+    let tok = bool_of tok and verify = bool_of verify in
+    let lst s = if s = "-" then [] else List.map bytes_of_hex (split_on ',' s) in
+    let cfg = { c_token_auth = tok; c_smartcard = false; c_cookie_cb = tok; c_name_cb = false; c_host_cb = true;
+                c_redir = parse_redir "0000000"; c_idle = Z0 } in
+    let t = { t_target = bytes_of_hex tokhost; t_remote = bytes_of_hex tokip; t_user = bytes_of_hex user } in
+    let pol = Model.wired_policy tok verify (bytes_of_hex mode) (lst hosts) t (bytes_of_hex cip) in
+    let items = Model.resolve_policy_dials pol (lst live) cfg Model.tstate0 (parse_items items) in
+    let m = obs_of_events (Model.run cfg items) (int_of_nat (Model.consumed cfg items)) in
+    let (ievs, _) = events_of_obs impl in
+    let spec h = Model.allowed_b tok verify (bytes_of_hex mode) (lst hosts) t (bytes_of_hex cip) h in
+    let verdict =
+      match Model.first_reject cfg.c_cookie_cb cfg.c_host_cb Model.mon0 ievs O with
+      | Some i -> Printf.sprintf "fail:monitor-rejects-event-%d" (int_of_nat i)
+      | None ->
+        if List.exists (fun e -> match e with AskHost (h, ok) -> ok <> spec h | _ -> false) ievs
+        then "fail:policy-decision-differs-from-specification"
+        else if List.exists (fun e -> match e with Dial (h, _) -> not (spec h) | _ -> false) ievs
+        then "fail:connected-to-forbidden-host"
+        else "ok" in
+    (m, verdict)
+  | "clientip" :: xff :: peer :: impl :: [] ->
+    let m = hex_of_bytes (Model.client_ip (bytes_of_hex xff) (bytes_of_hex peer)) in
+    (m, if m = impl then "ok" else "fail:client-address")
   | k :: _ -> failwith ("unknown kind " ^ k)
   | [] -> failwith "empty line"
 
